@@ -31,13 +31,13 @@ func init() {
 func isHandlerDispatch(c ssa.CallInstruction) bool {
 	cc := c.Common()
 	if cc.IsInvoke() {
-		if cc.Method.Name() != "ServeHTTP" {
+		if N(cc.Method) != "ServeHTTP" {
 			return false
 		}
 		return isHandlerSig(cc.Method.Type().(*types.Signature))
 	}
 	if sc := cc.StaticCallee(); sc != nil {
-		if sc.Name() == "ServeHTTP" && sc.Signature.Recv() != nil && isHandlerSig(sc.Signature) {
+		if N(sc) == "ServeHTTP" && sc.Signature.Recv() != nil && isHandlerSig(sc.Signature) {
 			return true
 		}
 		return false
@@ -382,7 +382,7 @@ func runC18(c *Ctx) {
 				writers = append(writers, FuncName(fn))
 			}
 		}
-		c.Check(len(writers) == 0, "C18.3", "operation."+fld.Name(), "written-only-by-constructor", fld.Pos(),
+		c.Check(len(writers) == 0, "C18.3", "operation."+N(fld), "written-only-by-constructor", fld.Pos(),
 			"field is stored only by the constructor", "field is also stored by: "+joinStr(writers))
 	}
 	_ = opT
@@ -433,7 +433,7 @@ func runC18(c *Ctx) {
 		installs := false
 		ForEachInstr(fn, func(in ssa.Instruction) {
 			if a, ok := in.(*ssa.Alloc); ok {
-				if n, ok := a.Type().(*types.Pointer).Elem().(*types.Named); ok && n.Obj().Name() == "responseWriter" {
+				if n, ok := a.Type().(*types.Pointer).Elem().(*types.Named); ok && N(n.Obj()) == "responseWriter" {
 					installs = true
 				}
 			}
@@ -473,7 +473,7 @@ func runC18Signals(c *Ctx) {
 	var extractCall ssa.Instruction
 	for _, call := range Calls(validate) {
 		cc := call.Common()
-		if cc.IsInvoke() && cc.Method.Name() == "extractProtocolRequestHeaders" {
+		if cc.IsInvoke() && N(cc.Method) == "extractProtocolRequestHeaders" {
 			extractCall = call
 		}
 	}
